@@ -140,6 +140,12 @@ add('dualquat_f', [('float', 8), ('float', 8), ('float', 1)], [('float', 8)] * 3
 add('mixu_f', [('float', 3), ('float', 3), ('double', 1), ('double', 3), ('float', 1)], [('float', 3), ('double', 3)], 'stv(o, glm::mix(ldv<3,float>(a), ldv<3,float>(b), c[0])); stv(o2, glm::mix(ldv<3,double>(d), ldv<3,double>(d), e[0]));')       # interpolant of another floating type than the components
 add('qrel_f', [('float', 4), ('float', 4)], [('bool', 4)] * 4, 'stv(o, glm::equal(ldq<float>(a), ldq<float>(b))); stv(o2, glm::lessThan(ldq<float>(a), ldq<float>(b))); stv(o3, glm::greaterThanEqual(ldq<float>(a), ldq<float>(b))); stv(o4, glm::isnan(ldq<float>(a)));')
 
+# the same relational results read in NAMED order (index of x, y, z, w taken from the object itself): invariant under the memory order, so everything but the index convention of the known
+# finding KF-C15-quat-relational-storage-order stays checked under GLM_FORCE_QUAT_DATA_WXYZ
+add('qreln_f', [('float', 4), ('float', 4)], [('bool', 4)] * 4, 'glm::quat p = ldq<float>(a), q = ldq<float>(b); int ix = int(&p.x - &p[0]), iy = int(&p.y - &p[0]), iz = int(&p.z - &p[0]), iw = int(&p.w - &p[0]);'
+    ' glm::bvec4 r = glm::equal(p, q); o[0] = r[ix]; o[1] = r[iy]; o[2] = r[iz]; o[3] = r[iw]; r = glm::lessThan(p, q); o2[0] = r[ix]; o2[1] = r[iy]; o2[2] = r[iz]; o2[3] = r[iw];'
+    ' r = glm::greaterThanEqual(p, q); o3[0] = r[ix]; o3[1] = r[iy]; o3[2] = r[iz]; o3[3] = r[iw]; r = glm::notEqual(p, q); o4[0] = r[ix]; o4[1] = r[iy]; o4[2] = r[iz]; o4[3] = r[iw];')
+
 # every matrix constructor has a second body for compilers without initializer lists (GLM_HAS_INITIALIZER_LISTS == 0 under GLM_FORCE_CXX98/03): all 81 shape conversions, the
 # scalar / column / component constructors, row()/column() access, transpose and outerProduct for all nine shapes (the wrappers of C02's float unit, re-used verbatim)
 import props.c02 as _C02
